@@ -1272,7 +1272,37 @@ func proveAt(fn *ssa.Function, in ssa.Instruction) *prover {
 	for _, g := range guardAtoms(fn, nil, in) {
 		p.addGuard(g)
 	}
+	p.addExecutedChecks(fn, in)
 	return p
+}
+
+// addExecutedChecks: every index/slice operation that dominates `at` has been executed without panicking when
+// control is at `at`, so its own bounds hold there (for the SSA values it used).  Each of those operations is an
+// obligation of its own, so by induction over execution order nothing is assumed that is not also checked.
+func (p *prover) addExecutedChecks(fn *ssa.Function, at ssa.Instruction) {
+	if at == nil {
+		return
+	}
+	for _, b := range fn.Blocks {
+		if b != at.Block() && !b.Dominates(at.Block()) {
+			continue
+		}
+		for _, x := range b.Instrs {
+			if x == at {
+				break
+			}
+			switch x.(type) {
+			case *ssa.Slice, *ssa.IndexAddr, *ssa.Index:
+				if !x.Pos().IsValid() {
+					continue
+				}
+				gs, _, _, _ := boundsGoals(p, x)
+				for _, g := range gs {
+					p.fact(g)
+				}
+			}
+		}
+	}
 }
 
 // boundsGoals returns the inequalities (each >= 0) that make the instruction safe, using prover p's term language.
